@@ -58,6 +58,14 @@ def roots_of(crate):
     return out
 
 
+def is_hc_counter(ev, fields, i):
+    """the step counter of Hc128Core: today's name, else its only usize field"""
+    if any(f["name"] == "counter1024" for f in fields):
+        return fields[i]["name"] == "counter1024"
+    us = [j for j, f in enumerate(fields) if ev.tys[f["ty"]].get("s") == "usize"]
+    return len(us) == 1 and us[0] == i
+
+
 def hc_invariant_self(ev, st, args, body):
     """Hc128Core.counter1024 = 16*q (class invariant): rewrite the symbolic self accordingly; returns (oid, path) list"""
     spots = []
@@ -72,7 +80,7 @@ def hc_invariant_self(ev, st, args, body):
                 return v
             out = list(v.fields)
             for i, f in enumerate(fs):
-                if f["name"] == "counter1024" and t["def"].endswith("Hc128Core") and isinstance(out[i], T.T):
+                if is_hc_counter(ev, fs, i) and t["def"].endswith("Hc128Core") and isinstance(out[i], T.T):
                     out[i] = T.shl(T.zext(T.sym(str(out[i].aux) + "/16", 60), 64), 4)
                     spots.append(True)
                 else:
@@ -103,7 +111,7 @@ def check_hc_invariant(chk, ev, st, args, body, key):
             if not isinstance(v, Struct):
                 return
             for i, f in enumerate(fs):
-                if f["name"] == "counter1024" and t["def"].endswith("Hc128Core") and isinstance(v.fields[i], T.T):
+                if is_hc_counter(ev, t["variants"][0]["fields"], i) and t["def"].endswith("Hc128Core") and isinstance(v.fields[i], T.T):
                     cv = v.fields[i]
                     if cv.op == "res" and cv.args[0].op == "call" and "rand_core::" in str(cv.args[0].aux):
                         continue  # written by the dependency's generic code, which only calls generate()
